@@ -80,7 +80,8 @@ Fixpoint cmp_results (idx : N) (m o : list val) : list val :=
                ++ cmp_field F_S_WOKEN (VL [VN idx; mw]) (VL [VN idx; ow])
                ++ cmp_field F_S_HINT (VL [VN idx; mh]) (VL [VN idx; oh])
                ++ cmp_field F_S_EOS (VL [VN idx; me]) (VL [VN idx; oe]) in
-      match f with [] => cmp_results (idx + 1) m' o' | _ => f end
+      (* keep comparing after a difference: a later field may be the one a property constrains *)
+      f ++ cmp_results (idx + 1) m' o'
   | _, _ => [finding K_DIVERGE F_S_OPS (VL m) (VL o)]
   end.
 
@@ -323,7 +324,7 @@ Definition run_stream (v : val) : val :=
                 cmp_field F_S_HDRS (model_hdrs i) ohdrs
                 ++ cmp_field F_S_WRITER (of_bool (has_writer i)) ow
                 ++ cmp_field F_S_HINT0 mh0 oh0 ++ cmp_field F_S_EOS0 me0 oe0 in
-              let model_part := if gz then [] else cmp_results 0 (model_results s0 (s_ops i)) ores in
+              let model_part := if gz then [] else firstn 12 (cmp_results 0 (model_results s0 (s_ops i)) ores) in
               let oracle :=
                 match vall dec_sobsop ores with
                 | None => [finding K_BAD (bs "stream-obs") (VL []) (VL [])]
@@ -339,6 +340,14 @@ Definition run_stream (v : val) : val :=
                     ++ (* C17: headers *)
                        scheck (val_eqb ohdrs (model_hdrs i)) "C17" "vary-and-content-encoding-match-negotiation"
                     ++ scheck (val_eqb ow (of_bool (has_writer i))) "C17" "writer-iff-not-head"
+                    ++ (* C17: without Content-Encoding the body is the written bytes verbatim *)
+                       (let header_gzip := match ohdrs with
+                                           | VL hs => existsb (fun h => val_eqb h (VL [VB (bs "content-encoding"); VB (bs "gzip")])) hs
+                                           | _ => false end in
+                        if negb header_gzip && k_exact kf && negb (k_aborted kf) && negb (k_dead kf)
+                           && match k_terminal kf with Some SEnd => true | _ => false end
+                        then scheck (beq_bytes (k_delivered kf) (k_accepted kf)) "C17" "identity-coded-body-is-the-written-bytes"
+                        else [])
                 end in
               VL (finding K_TAG tag (VL []) (VL []) :: common ++ model_part ++ oracle)
           | _ => VL [finding K_TAG (bs "panic") (VL []) (VL []); finding K_DIVERGE (bs "shape") (VL []) obs;
